@@ -4,10 +4,19 @@ from .common import Ctx
 
 
 def setup():
+    """build what the checks need: every Base and Model file (the evaluators the case files import) and the
+    dependency cone of every Props file.  Proofs files that no Props file imports are not part of any claim and
+    are not built.  A Props cone that fails to build does not fail the setup: the check of that property
+    re-builds its own cone and reports the broken obligation itself."""
+    import glob
     common.ensure_makefile()
-    cmd = 'timeout 7200 make -C %s -j%d' % (common.COQ, common.NCPU)
-    p = subprocess.run(cmd, shell=True)
-    return p.returncode
+    rel = lambda pat: sorted(os.path.relpath(f, common.COQ)[:-2] + '.vo' for f in glob.glob(os.path.join(common.COQ, pat)))
+    need = rel('Base/*.v') + rel('Model/*.v')
+    p = subprocess.run('timeout 7200 make -C %s -j%d %s' % (common.COQ, common.NCPU, ' '.join(need)), shell=True)
+    if p.returncode != 0:
+        return p.returncode
+    subprocess.run('timeout 7200 make -k -C %s -j%d %s' % (common.COQ, common.NCPU, ' '.join(rel('Props/*.v'))), shell=True)
+    return 0
 
 
 def main():
